@@ -14,10 +14,12 @@ import (
 	"math/rand"
 	"os"
 	"path/filepath"
+	"reflect"
 	"strconv"
 	"strings"
 	"testing"
 	"time"
+	"unsafe"
 
 	"github.com/alephium/wormhole-fork/node/pkg/db"
 	publicrpcv1 "github.com/alephium/wormhole-fork/node/pkg/proto/publicrpc/v1"
@@ -97,6 +99,128 @@ type c12rpc struct {
 	addrs    []vaa.Address
 	maxSeq   int
 	stored   []vaa.VAAID
+	dir      string     // the store directory of the case
+	isDown   bool       // the store handle is closed right now (lines carry down=1)
+	rd       *rand.Rand // the store-unavailable episodes and the chain-id cases draw from their own generator
+}
+
+// sfx marks the lines of calls made while the store handle is unavailable
+func (g *c12rpc) sfx() string {
+	if g.isDown {
+		return " down=1"
+	}
+	return ""
+}
+
+// setServerDB points the running server at another store handle; the field is found by its TYPE, not by its name
+func (g *c12rpc) setServerDB(nd *db.Database) {
+	v := reflect.ValueOf(g.s).Elem()
+	want := reflect.TypeOf((*db.Database)(nil))
+	for i := 0; i < v.NumField(); i++ {
+		if f := v.Field(i); f.Type() == want {
+			reflect.NewAt(f.Type(), unsafe.Pointer(f.UnsafeAddr())).Elem().Set(reflect.ValueOf(nd))
+			return
+		}
+	}
+	g.t.Fatal("verif: PublicrpcServer holds no *db.Database field")
+}
+
+// withDown: the store handle is unavailable for the duration of f (closed, as in runNode's deferred db.Close() while the gRPC
+// server still accepts calls; every read then fails with an error that is not "not found"), then the directory is opened again
+// and the running server continues on the new handle - nothing that was stored may have changed.
+func (g *c12rpc) withDown(f func()) {
+	if err := g.d.Close(); err != nil {
+		g.t.Fatal(err)
+	}
+	g.isDown = true
+	f()
+	g.isDown = false
+	g.reopenNow()
+}
+
+func (g *c12rpc) reopenNow() {
+	nd, err := db.Open(g.dir)
+	if err != nil {
+		g.t.Fatalf("verif: store did not reopen: %v", err)
+	}
+	g.d = nd
+	g.setServerDB(nd)
+}
+
+// restart: a clean close and a reopen of the directory between two calls (what a node restart does to the store)
+func (g *c12rpc) restart() {
+	if err := g.d.Close(); err != nil {
+		g.t.Fatal(err)
+	}
+	g.reopenNow()
+	fmt.Fprintf(g.w, "reopen %s\n", g.cid)
+}
+
+// rgetExact: the lookup of exactly this identifier (canonical address, in-range chain numbers)
+func (g *c12rpc) rgetExact(id vaa.VAAID) {
+	as := hex.EncodeToString(id.EmitterAddress[:])
+	req := &publicrpcv1.GetSignedVAARequest{MessageId: &publicrpcv1.MessageID{EmitterChain: publicrpcv1.ChainID(id.EmitterChain),
+		EmitterAddress: as, TargetChain: publicrpcv1.ChainID(id.TargetChain), Sequence: id.Sequence}}
+	res, val := g.callGet(req)
+	line := fmt.Sprintf("rget %s hasid=1 ec=%d addr=%s tc=%d seq=%d res=%s", g.cid, uint16(id.EmitterChain), c12hex([]byte(as)), uint16(id.TargetChain), id.Sequence, res)
+	if res == "ok" {
+		line += " val=" + c12hex(val)
+	}
+	fmt.Fprintln(g.w, line+g.sfx())
+}
+
+// downEpisode: single lookups and batches while the handle is unavailable - stored identifiers, holes, a whole stream, an empty
+// batch, the governance batch, also requests the server has to refuse before it reads anything (drawn from g.rd)
+func (g *c12rpc) downEpisode() {
+	saved := g.r
+	g.r = g.rd
+	defer func() { g.r = saved }()
+	g.withDown(func() {
+		seen := map[string]bool{}
+		n := 0
+		for _, i := range g.r.Perm(len(g.stored)) {
+			id := g.stored[i]
+			if k := string(id.Bytes()); seen[k] || n >= 3 {
+				continue
+			} else {
+				seen[k] = true
+			}
+			n++
+			g.rgetExact(id)
+			// the stream of that identifier: the stored sequence alone, with a hole, and every sequence of the case
+			var others []uint64
+			for _, o := range g.stored {
+				if o.EmitterChain == id.EmitterChain && o.TargetChain == id.TargetChain && o.EmitterAddress == id.EmitterAddress && o.Sequence != id.Sequence {
+					others = append(others, o.Sequence)
+				}
+			}
+			hole := uint64(g.maxSeq + 2 + g.r.Intn(5))
+			g.rbatchExact(uint16(id.EmitterChain), uint16(id.TargetChain), id.EmitterAddress, []uint64{id.Sequence})
+			g.rbatchExact(uint16(id.EmitterChain), uint16(id.TargetChain), id.EmitterAddress, []uint64{hole, id.Sequence})
+			if len(others) > 0 {
+				sq := []uint64{id.Sequence, hole}
+				for _, o := range others {
+					if len(sq) < 20 {
+						sq = append(sq, o)
+					}
+				}
+				g.rbatchExact(uint16(id.EmitterChain), uint16(id.TargetChain), id.EmitterAddress, sq)
+			}
+			// a never-stored neighbour
+			absent := id
+			absent.Sequence = uint64(g.maxSeq + 7)
+			g.rgetExact(absent)
+		}
+		a := g.addrs[g.r.Intn(len(g.addrs))]
+		g.rbatchExact(g.ecs[0], g.tcs[0], a, nil)               // nothing to read: an empty answer is exact
+		g.rbatchExact(g.ecs[0], g.tcs[0], a, []uint64{0, 1, 2}) // possibly a stream nothing was stored in
+		g.rgov()
+		// the PRNG-shaped requests (malformed addresses, out-of-range enum numbers, over-long batches)
+		for i := 0; i < 3; i++ {
+			g.rget()
+			g.rbatch()
+		}
+	})
 }
 
 var c12groups = [][]uint16{
@@ -118,7 +242,8 @@ func (g *c12rpc) newCase() {
 	}
 	g.n++
 	g.cid = fmt.Sprintf("rpc%d", g.n)
-	d, err := db.Open(g.t.TempDir())
+	g.dir = g.t.TempDir()
+	d, err := db.Open(g.dir)
 	if err != nil {
 		g.t.Fatal(err)
 	}
@@ -250,7 +375,7 @@ func (g *c12rpc) rget() {
 	if res == "ok" {
 		line += " val=" + c12hex(val)
 	}
-	fmt.Fprintln(g.w, line)
+	fmt.Fprintln(g.w, line+g.sfx())
 }
 
 func (g *c12rpc) callGet(req *publicrpcv1.GetSignedVAARequest) (res string, val []byte) {
@@ -320,7 +445,7 @@ func (g *c12rpc) rbatch() {
 		}
 		line += " out=" + o
 	}
-	fmt.Fprintln(g.w, line)
+	fmt.Fprintln(g.w, line+g.sfx())
 }
 
 // rbatchExact: a batch for exactly this stream and these sequences (canonical address, in-range chain numbers)
@@ -355,7 +480,7 @@ func (g *c12rpc) rbatchExact(ec, tc uint16, a vaa.Address, seqs []uint64) {
 		}
 		line += " out=" + o
 	}
-	fmt.Fprintln(g.w, line)
+	fmt.Fprintln(g.w, line+g.sfx())
 }
 
 // batchSweep: every stream of the case is asked for all its sequences 0..maxSeq+1 (stored ones and holes) in batches of 2..20 -
@@ -457,7 +582,7 @@ func (g *c12rpc) rgov() {
 		}
 		line += " out=" + o
 	}
-	fmt.Fprintln(g.w, line)
+	fmt.Fprintln(g.w, line+g.sfx())
 }
 
 func TestVerifDbRpc(t *testing.T) {
@@ -474,7 +599,8 @@ func TestVerifDbRpc(t *testing.T) {
 	defer f.Close()
 	w := bufio.NewWriterSize(f, 1<<20)
 	defer w.Flush()
-	g := &c12rpc{r: rand.New(rand.NewSource(seed ^ 0x5bd1e995)), rs: rand.New(rand.NewSource(seed ^ 0x1b873593)), w: w, t: t}
+	g := &c12rpc{r: rand.New(rand.NewSource(seed ^ 0x5bd1e995)), rs: rand.New(rand.NewSource(seed ^ 0x1b873593)),
+		rd: rand.New(rand.NewSource(seed ^ 0x2545f491)), w: w, t: t}
 	ncases, nops := 12, 220
 	if tier == "thorough" {
 		ncases, nops = 250, 400
@@ -496,10 +622,119 @@ func TestVerifDbRpc(t *testing.T) {
 			default:
 				g.rgov()
 			}
+			// the store handle unavailable under the running server, twice per case (own PRNG: the operations stay what they were)
+			if i == nops/3 || i == (2*nops)/3 {
+				g.downEpisode()
+			}
 		}
 		// every stream through the batch RPC: all its sequences, stored ones and holes, in batches of 2..20
 		g.batchSweep()
-		// every stored identifier through the RPC, exactly
+		// every stored identifier through the RPC, exactly - and once more after a restart of the store
+		for pass := 0; pass < 2; pass++ {
+			seen := map[string]bool{}
+			for _, id := range g.stored {
+				k := string(id.Bytes())
+				if seen[k] {
+					continue
+				}
+				seen[k] = true
+				g.rgetExact(id)
+			}
+			if pass == 0 {
+				if c%3 != 0 {
+					break
+				}
+				g.restart()
+			}
+		}
+	}
+	// chain ids over the whole 16-bit range (the proto enum names only 0..17, 255 and 10001; VAAID chain ids are uint16 and
+	// StoreSignedVAA accepts every one of them)
+	nchain := 3
+	if tier == "thorough" {
+		nchain = 40
+	}
+	for c := 0; c < nchain; c++ {
+		g.chainCase(c)
+	}
+	if g.d != nil {
+		g.d.Close()
+	}
+}
+
+// chain ids at and around every boundary a lookup API could treat specially: the enum's values and their neighbours, one / two
+// byte boundaries, decimal-length boundaries, the ends of the range
+var c12chainEdges = []uint16{0, 1, 2, 9, 10, 16, 17, 18, 19, 20, 99, 100, 127, 128, 253, 254, 255, 256, 257, 511, 512, 999, 1000, 4095, 4096,
+	9999, 10000, 10001, 10002, 32767, 32768, 49151, 65280, 65534, 65535}
+
+func (g *c12rpc) anyChain() uint16 {
+	switch g.r.Intn(3) {
+	case 0:
+		return c12chainEdges[g.r.Intn(len(c12chainEdges))]
+	case 1:
+		return uint16(g.r.Intn(300))
+	}
+	return uint16(g.r.Intn(65536))
+}
+
+// chainCase: VAAs whose emitter and target chains are drawn from the whole uint16 range (every stored VAA is acknowledged by
+// StoreSignedVAA), one in six with a payload vaa.Unmarshal rejects (empty / nil: the store and the lookups carry bytes, they never
+// decode); every stored identifier is then looked up exactly - single lookup, a batch of its stream with a hole - before and after
+// a restart of the store, and while the handle is unavailable.
+func (g *c12rpc) chainCase(c int) {
+	saved := g.r
+	g.r = g.rd
+	defer func() { g.r = saved }()
+	g.newCase()
+	r := g.r
+	n := 40
+	type stream struct {
+		ec, tc uint16
+		a      vaa.Address
+	}
+	var streams []stream
+	for i := 0; i < n; i++ {
+		var st stream
+		if len(streams) > 0 && r.Intn(4) == 0 {
+			st = streams[r.Intn(len(streams))]
+		} else {
+			st = stream{g.anyChain(), g.anyChain(), g.addrs[r.Intn(len(g.addrs))]}
+			switch {
+			case i < len(c12chainEdges) && c == 0:
+				st.ec = c12chainEdges[i] // every edge once as emitter chain ...
+			case i < len(c12chainEdges) && c == 1:
+				st.tc = c12chainEdges[i] // ... and once as target chain
+			}
+			streams = append(streams, st)
+		}
+		v := &vaa.VAA{Version: 1, GuardianSetIndex: uint32(r.Intn(4)), EmitterChain: vaa.ChainID(st.ec), EmitterAddress: st.a,
+			TargetChain: vaa.ChainID(st.tc), Sequence: uint64(r.Intn(g.maxSeq + 1))}
+		sg := &vaa.Signature{Index: 0}
+		copy(sg.Signature[:], g.bytesN(65))
+		v.Signatures = []*vaa.Signature{sg}
+		v.Timestamp = time.Unix(int64(r.Uint32()), 0)
+		v.Nonce = r.Uint32()
+		v.ConsistencyLevel = uint8(r.Intn(256))
+		switch r.Intn(12) {
+		case 0:
+			v.Payload = nil
+		case 1:
+			v.Payload = []byte{}
+		default:
+			v.Payload = g.bytesN(1 + r.Intn(20))
+		}
+		res := "ok"
+		if err := g.d.StoreSignedVAA(v); err != nil {
+			res = "err"
+		}
+		val, _ := v.Marshal()
+		id := db.VaaIDFromVAA(v)
+		fmt.Fprintf(g.w, "put %s v=%s res=%s key=%s val=%s\n", g.cid, c12canon(v), res, string(id.Bytes()), c12hex(val))
+		if res == "ok" {
+			g.stored = append(g.stored, *id)
+		}
+	}
+	lookups := func() {
 		seen := map[string]bool{}
 		for _, id := range g.stored {
 			k := string(id.Bytes())
@@ -507,17 +742,17 @@ func TestVerifDbRpc(t *testing.T) {
 				continue
 			}
 			seen[k] = true
-			req := &publicrpcv1.GetSignedVAARequest{MessageId: &publicrpcv1.MessageID{EmitterChain: publicrpcv1.ChainID(id.EmitterChain),
-				EmitterAddress: hex.EncodeToString(id.EmitterAddress[:]), TargetChain: publicrpcv1.ChainID(id.TargetChain), Sequence: id.Sequence}}
-			res, val := g.callGet(req)
-			line := fmt.Sprintf("rget %s hasid=1 ec=%d addr=%s tc=%d seq=%d res=%s", g.cid, uint16(id.EmitterChain), c12hex([]byte(hex.EncodeToString(id.EmitterAddress[:]))), uint16(id.TargetChain), id.Sequence, res)
-			if res == "ok" {
-				line += " val=" + c12hex(val)
-			}
-			fmt.Fprintln(g.w, line)
+			g.rgetExact(id)
+			g.rbatchExact(uint16(id.EmitterChain), uint16(id.TargetChain), id.EmitterAddress, []uint64{uint64(g.maxSeq + 3), id.Sequence})
+			// the same identifier with emitter and target chain swapped is (almost always) absent
+			sw := id
+			sw.EmitterChain, sw.TargetChain = id.TargetChain, id.EmitterChain
+			g.rgetExact(sw)
 		}
 	}
-	if g.d != nil {
-		g.d.Close()
-	}
+	lookups()
+	g.restart()
+	lookups()
+	g.withDown(lookups)
+	lookups()
 }
